@@ -7,6 +7,7 @@
     {"op":"count",    base, site, cond, head}
     {"op":"http_date", dt}                     dt = {"f":[y,mo,d,h,mi,s], "off":seconds}
     {"op":"parse", s, zone}                    zone = {"init":o, "trans":[[t,o],…]}
+    {"op":"calendar", from, n}                 sweep of civilFromDays / weekday / daysFromCivil over n days
     {"op":"dates", zones, items:[{"dt":aware | "s":str, "zone":name}…]}   http_date then parse_http_date
   server = [[url, resp]…]; resp = {"kind":"page","items":[doc…],"next":{"t":"last"|"broken"|"next","href":…}}
                                 | {"kind":"fail","err":name};  unknown URL = KeyError (error payload)
@@ -137,6 +138,19 @@ def jCount (r : Except Err (String × Except Err String)) : Json :=
   | .ok (u, .ok v) => Json.mkObj [("pre", Json.null), ("urls", jList jS [u]), ("count", jS v), ("stop", Json.null)]
   | .ok (u, .error e) => Json.mkObj [("pre", Json.null), ("urls", jList jS [u]), ("count", Json.null), ("stop", jS e.name)]
 
+/-- exhaustive calendar sweep: rolling hash of (y, m, d, weekday) over `n` consecutive day numbers,
+    and the number of days on which `daysFromCivil ∘ civilFromDays` is not the identity -/
+def calendarSweep (z0 : Int) (n : Nat) : Nat × Nat := Id.run do
+  let mut h : Nat := 0
+  let mut bad : Nat := 0
+  for i in [0:n] do
+    let z := z0 + (i : Int)
+    let c := Acn.Calendar.civilFromDays z
+    let key := (((c.1 * 100 + c.2.1) * 100 + c.2.2) * 7 + Acn.Calendar.weekday z).toNat
+    h := (h * 1000003 + key) % 2305843009213693951
+    if Acn.Calendar.daysFromCivil c.1 c.2.1 c.2.2 != z then bad := bad + 1
+  return (h, bad)
+
 def handle (j : Json) : Except String Json := do
   let op ← getStr j "op"
   if op == "sessions" then
@@ -176,6 +190,12 @@ def handle (j : Json) : Except String Json := do
   else if op == "parse" then
     let z ← parseZone (← j.getObjVal? "zone")
     pure (Json.mkObj [("r", jOpt jAware (parseHttpDate z.off (← getStr j "s")))])
+  else if op == "calendar" then
+    let z0 ← getInt j "from"
+    let n ← getNat j "n"
+    let (h, bad) := calendarSweep z0 n
+    let c0 := Acn.Calendar.civilFromDays z0
+    pure (Json.mkObj [("hash", jN h), ("bad", jN bad), ("first", Json.arr #[jI c0.1, jI c0.2.1, jI c0.2.2])])
   else if op == "dates" then
     let zs ← parseZones j
     let items ← getArr j "items"
